@@ -1131,9 +1131,91 @@ Qed.
 Theorem cc_judge_parts : forall case out, e2e_cc_judge case out = true ->
   exists rws, take_rows 8 (nz out 5) (skipn 6 out) = Some (rws, []) /\
     cc_scan (nz out 3) cc_init (filter (fun r => x_ep r =? 0) (map mk_xrow rws)) = true /\
-    cc_scan (nz out 3) cc_init (filter (fun r => x_ep r =? 1) (map mk_xrow rws)) = true.
+    cc_scan (nz out 3) cc_init (filter (fun r => x_ep r =? 1) (map mk_xrow rws)) = true /\
+    (nz out 3 = 0 ->
+     once_scan once_init (filter (fun r => x_ep r =? 0) (map mk_xrow rws)) = true /\
+     once_scan once_init (filter (fun r => x_ep r =? 1) (map mk_xrow rws)) = true).
 Proof.
   intros case out H. unfold e2e_cc_judge in H. destruct (negb _); [discriminate|].
   destruct (take_rows 8 (nz out 5) (skipn 6 out)) as [[rws rest]|]; [|discriminate].
-  destruct rest; [|discriminate]. rewrite andb_true_iff in H. exists rws. tauto.
+  destruct rest; [|discriminate]. repeat rewrite andb_true_iff in H. destruct H as [[A B] C].
+  exists rws. split; [reflexivity|]. split; [exact A|]. split; [exact B|].
+  intros Z0. rewrite Z0 in C. change (negb (0 =? 0)) with false in C. cbn [orb] in C.
+  rewrite andb_true_iff in C. exact C.
+Qed.
+
+(* CUBIC, at most one reduction per round trip *)
+Theorem once_scan_sound : forall l s, once_scan s l = true ->
+  forall pre r post, l = pre ++ r :: post ->
+  (forall o, In o pre -> x_k o <> 7) -> x_k r <> 7 ->
+  once_check (fold_left once_upd pre s) r = true.
+Proof.
+  induction l as [|x t IH]; intros s H pre r post E Hpre Hr.
+  - destruct pre; discriminate.
+  - cbn [once_scan] in H. destruct pre as [|p pre]; cbn [app] in E; injection E as E1 E2; subst.
+    + destruct (Z.eqb_spec (x_k r) 7); [contradiction|].
+      rewrite andb_true_iff in H. destruct H as [H _]. exact H.
+    + destruct (Z.eqb_spec (x_k p) 7) as [K|K]; [exfalso; apply (Hpre p); [left; reflexivity | exact K]|].
+      rewrite andb_true_iff in H. destruct H as [_ H]. cbn [fold_left].
+      eapply IH; eauto. intros o Ho. apply Hpre. right. exact Ho.
+Qed.
+
+(* a reduction of the reported window is the first one, or follows the acknowledgement of a
+   packet sent after the previous reduction, or goes to the minimum window (persistent congestion) *)
+Theorem once_reduction_sound : forall s r, once_check s r = true ->
+  x_k r = 3 -> g_a r < o_cwnd s -> o_cong s = true ->
+  o_red_t s = -1 \/ o_red_ok s = true \/ g_a r <= 2 * o_mtu s.
+Proof.
+  intros s r H K L C. unfold once_check, is_reduction in H. rewrite K in H. rewrite Z.eqb_refl in H.
+  apply Z.ltb_lt in L. rewrite L, C in H. cbn [andb] in H.
+  repeat rewrite orb_true_iff in H. destruct H as [[H|H]|H].
+  - left. apply Z.eqb_eq in H. exact H.
+  - right. left. exact H.
+  - right. right. apply Z.leb_le in H. exact H.
+Qed.
+
+(* the flag o_red_ok is raised only by an ACK range that covers an unacknowledged packet sent
+   strictly after the last reduction, and a reduction clears it *)
+Theorem once_flag_rule : forall s r, o_red_ok (once_upd s r) = true -> o_red_ok s = false ->
+  x_k r = 1 /\ exists u, In u (o_sent s) /\ o_cov (g_x r) (g_a r) (g_b r) u = true /\ o_red_t s < snd u.
+Proof.
+  intros s r H N. unfold once_upd in H.
+  destruct (Z.eqb_spec (x_k r) 0). { cbn [o_red_ok] in H. congruence. }
+  destruct (Z.eqb_spec (x_k r) 1) as [K|K].
+  { cbn [o_red_ok] in H. rewrite N in H. cbn [orb] in H. apply existsb_exists in H.
+    destruct H as [u [Hu Hc]]. rewrite andb_true_iff in Hc. destruct Hc as [C1 C2]. apply Z.ltb_lt in C2.
+    split; [exact K|]. exists u. auto. }
+  destruct (Z.eqb_spec (x_k r) 3). { cbn [o_red_ok] in H. destruct ((g_a r <? o_cwnd s) && o_cong s); congruence. }
+  destruct (Z.eqb_spec (x_k r) 5). { cbn [o_red_ok] in H. congruence. }
+  destruct (Z.eqb_spec (x_k r) 6). { cbn [o_red_ok] in H. congruence. }
+  congruence.
+Qed.
+
+(* ------------------------------------------------------------------------------------------ *)
+(* C04: a peer that breaks a rule                                                             *)
+(* ------------------------------------------------------------------------------------------ *)
+
+Theorem violate_sound : forall t, violate_ok t = true -> v_injected t <> 0 ->
+  v_closed t = 1 /\ v_class t = 2 /\ v_local t = 1 /\
+  (v_code t = v_expected t \/ v_code t = 10 \/ v_code t = 1) /\
+  v_closed_us t <= v_time t + 2 * v_delay_ms t * 1000 + 100000 /\
+  (forall f, In f (v_flows t) -> f_wrong f = -1).
+Proof.
+  intros t H N. unfold violate_ok in H. destruct (Z.eqb_spec (v_injected t) 0); [contradiction|].
+  repeat rewrite andb_true_iff in H. destruct H as [[[[[A B] C] D] E] F].
+  apply Z.eqb_eq in A, B, C. apply Z.leb_le in E. unfold code_ok in D.
+  repeat rewrite orb_true_iff in D. rewrite !Z.eqb_eq in D.
+  repeat split; auto; [tauto|].
+  intros f Hf. rewrite forallb_forall in F. apply Z.eqb_eq. auto.
+Qed.
+
+Theorem violate_judge_parts : forall case out, e2e_violate_judge case out = true ->
+  exists frows, take_rows 10 (nz out 11) (skipn 12 out) = Some (frows, []) /\
+    violate_ok {| v_injected := nz out 2; v_time := nz out 3; v_expected := nz out 4; v_delay_ms := nz out 5;
+                  v_closed := nz out 6; v_class := nz out 7; v_code := nz out 8; v_closed_us := nz out 9;
+                  v_local := nz out 10; v_flows := map mk_flow frows |} = true.
+Proof.
+  intros case out H. unfold e2e_violate_judge in H. destruct (negb _); [discriminate|].
+  destruct (take_rows 10 (nz out 11) (skipn 12 out)) as [[frows rest]|]; [|discriminate].
+  destruct rest; [|discriminate]. exists frows. auto.
 Qed.
